@@ -292,4 +292,28 @@ def zlibStored (block : Nat) (data : List Nat) : List Nat :=
   [0x78, 0x01] ++ storedBlocks block (data.length + 1) data ++
     [a / 16777216 % 256, a / 65536 % 256, a / 256 % 256, a % 256]
 
+/-! ## zlib, one fixed-Huffman block of literals (RFC 1951 §3.2.6) -/
+
+/-- the fixed code of a literal byte: (code, length) -/
+def fixedLitCode (b : Nat) : Nat × Nat := if b < 144 then (48 + b, 8) else (256 + b, 9)
+
+/-- the bits of the block in stream order: BFINAL = 1, BTYPE = 01 (least significant bit first), every
+literal's Huffman code (most significant bit first), end-of-block `0000000` -/
+def fixedBits (data : List Nat) : List Bool :=
+  [true, true, false] ++ data.flatMap (fun b => codeBits (fixedLitCode b).2 (fixedLitCode b).1) ++
+    List.replicate 7 false
+
+/-- bits → bytes, first bit = least significant bit of the first byte, zero padding (RFC 1951 §3.1.1) -/
+def packBitsLE : Nat → List Bool → List Nat
+  | 0, _ => []
+  | fuel + 1, bs =>
+    if bs.isEmpty then []
+    else bitsToByte ((bs.take 8) ++ List.replicate (8 - (bs.take 8).length) false).reverse :: packBitsLE fuel (bs.drop 8)
+
+/-- RFC 1950 header 78 01, one final fixed-Huffman block holding every byte as a literal, Adler-32 -/
+def zlibFixed (data : List Nat) : List Nat :=
+  let a := adler32 data
+  [0x78, 0x01] ++ packBitsLE ((fixedBits data).length + 1) (fixedBits data) ++
+    [a / 16777216 % 256, a / 65536 % 256, a / 256 % 256, a % 256]
+
 end OxiVerif.Codec
